@@ -2,12 +2,18 @@
   C05 — ECB/CBC/CTR/CTS modes follow SP 800-38A and decrypt what they encrypt.
   ONLY property theorems (and their non-vacuity examples) live here; helper lemmas are in Proofs/Lemmas/Mode*.lean.
 
-  Setting.  `Model.Mode` mirrors crysp/mode.py over an abstract block cipher `c : Model.BlockCipher`
-  (any object with blocksize/enc/dec).  `Implements c k` (Proofs/Lemmas/ModeL.lean) says that on byte blocks of
-  c.len bytes `c.enc`/`c.dec` return the values of the total functions `k.E`/`k.D` of the Spec cipher `k`, that
-  these map byte blocks to byte blocks and are mutually inverse.  C03 supplies this for AES, DES, TDEA, Serpent and
-  Threefish, so every theorem below holds for every cipher of the library, every key (hidden in `c`, `k`), every
-  IV / counter block and every message in the mode's domain.
+  Setting.  `Model.Mode` mirrors crysp/mode.py over a block cipher object `c : Model.BlockCipher` (any object with
+  blocksize/enc/dec).  `Implements c k` (Proofs/Lemmas/ModeL.lean) says that on byte blocks of c.len bytes `c.enc`/`c.dec`
+  return the values of the total functions `k.E`/`k.D` of the Spec cipher `k`, that these map byte blocks to byte blocks
+  and are mutually inverse.
+    Part 1 (abstract cipher): every theorem holds for every `c`, `k` with `Implements c k`.
+    Part 2 (the library): `aes_implements`, `des_implements`, `tdea_implements`, `serpent_implements` PROVE `Implements` for
+  `AES(K)`, `DES(K)`, `TDEA(K1,K2,K3)`, `Serpent(K)` against FIPS 197 / FIPS 46-3 / SP 800-67 / the Serpent submission, every
+  accepted key, by composing the C03 (permutation) and C02 (refinement) theorems of each cipher; `lib_ecb … lib_cts_dec`
+  restate the property for `LibCipher c k` with no hypothesis on the cipher left.  Threefish is not modelled yet (hook:
+  one more constructor of `LibCipher`, Proofs/Lemmas/ModeInst.lean); until then it is covered by Part 1 only.
+    Part 3: Spec.ModePad = Spec.Padding (property C09) on byte strings.  Proofs/C05/KatF.lean: SP 800-38A appendix F vectors
+  through Spec.Mode over Spec.Aes, in the kernel.
   `Bytes M`: all elements < 256 (M is a Python `bytes`).  `PadDom s l M`: the admissible (padding, message) pairs:
   PKCS#7 / X9.23 need l < 256, no padding needs a non-empty block multiple.  `CtrDom l iv`: the counter argument is an
   l-byte string, or None with an even block length (the default counter is two halves of ⌊l/2⌋ bytes).
@@ -15,9 +21,12 @@
 import Proofs.Lemmas.ModeCts
 import Proofs.Lemmas.ModeCounter
 import Proofs.Lemmas.ModeCtsSpec
+import Proofs.Lemmas.ModeCtsInv
 import Proofs.Lemmas.ModeToy
+import Proofs.Lemmas.ModeInst
+import Proofs.Lemmas.ModePadTie
 namespace Proofs.C05
-open Model Model.Mode Proofs.Lemmas.ModeL
+open Model Model.Mode Proofs.Lemmas.ModeL Proofs.Lemmas.ModeInst
 
 variable {c : BlockCipher} {k : Spec.Mode.Cipher}
 
@@ -50,6 +59,26 @@ theorem cts_ecb_spec (h : Implements c k) (M : List Nat) (hM : Bytes M) (hlen : 
 theorem cts_cbc_spec (h : Implements c k) (iv : List Nat) (hiv : IsBlock c.len iv) (M : List Nat) (hM : Bytes M)
     (hlen : c.len ≤ M.length) : CTS_CBC.enc c iv .no M = .ok (Spec.Mode.cbcCts k iv M) :=
   cts_cbc_enc_spec h iv hiv M hM hlen
+
+/-- CTS_ECB.dec computes the Spec inverse (ECB-CTS decryption over CIPH⁻¹) on EVERY byte string of at least one block,
+    not only on the ciphertexts `enc` produces -/
+theorem cts_ecb_dec_spec (h : Implements c k) (C : List Nat) (hC : Bytes C) (hlen : c.len ≤ C.length) :
+    CTS_ECB.dec c .no C = .ok (Spec.Mode.ecbCtsInv k C) :=
+  Proofs.Lemmas.ModeL.cts_ecb_dec_spec h C hC hlen
+
+/-- CTS_CBC.dec computes CBC-CS2-Decrypt of the SP 800-38A addendum, with the first block of the input as IV, on EVERY byte
+    string of at least two blocks (the IV the object was built with is not used by `dec`; it only has to be one block long) -/
+theorem cts_cbc_dec_spec (h : Implements c k) (iv : List Nat) (hiv : iv.length = c.len) (C : List Nat) (hC : Bytes C)
+    (hlen : 2 * c.len ≤ C.length) : CTS_CBC.dec c iv .no C = .ok (Spec.Mode.cbcCtsInv k C) :=
+  Proofs.Lemmas.ModeL.cts_cbc_dec_spec h iv hiv C hC hlen
+
+/-- at the level of the specification alone: ECB-CTS decryption and CBC-CS2 decryption (IV in front) undo the
+    corresponding encryptions, for every cipher function pair (E, D) = `k` that a model cipher implements — in particular
+    FIPS 197, FIPS 46-3, SP 800-67 and Serpent with every key (`lib_implements`) -/
+theorem cts_spec_inverse (h : Implements c k) :
+    (∀ M, Bytes M → c.len ≤ M.length → Spec.Mode.ecbCtsInv k (Spec.Mode.ecbCts k M) = M) ∧
+    (∀ iv M, IsBlock c.len iv → Bytes M → c.len ≤ M.length → Spec.Mode.cbcCtsInv k (Spec.Mode.cbcCts k iv M) = M) :=
+  ⟨fun M hM hl => ecbCtsInv_ecbCts h M hM hl, fun iv M hiv hM hl => cbcCtsInv_cbcCts h iv hiv M hM hl⟩
 
 /-! ### decryption inverts encryption (with an equally configured object in any padding state `st`) -/
 
@@ -97,7 +126,7 @@ theorem cts_cbc_dec_enc (h : Implements c k) (iv : List Nat) (hiv : IsBlock c.le
 
 /-- the same, from the permutation hypotheses stated on the model cipher alone: on byte blocks `enc`/`dec` succeed, return
     byte blocks and invert each other (`dec (enc b) = b`, `enc (dec b) = b`).  This is the form in which C03 delivers
-    AES, DES, TDEA, Serpent and Threefish, so "for every cipher of the library" is a corollary. -/
+    its results; for AES, DES, TDEA and Serpent the instantiation is carried out below (`lib_*`). -/
 theorem dec_enc_of_permutation (c : BlockCipher) (hpos : 0 < c.len)
     (henc : ∀ b, IsBlock c.len b → ∃ y, c.enc b = .ok y ∧ IsBlock c.len y ∧ c.dec y = .ok b)
     (hdec : ∀ y, IsBlock c.len y → ∃ b, c.dec y = .ok b ∧ IsBlock c.len b ∧ c.enc b = .ok y) :
@@ -186,7 +215,185 @@ theorem ctr_rejects_counter (iv M : List Nat) (hiv : iv.length ≠ c.len) : ∃ 
   | error e => exact ⟨e, rfl⟩
   | ok p => exact ⟨"AssertionError", by simp [DefaultCounter.new, hiv]⟩
 
+/-! ### the block ciphers of the library
+
+  `Model.Mode.Ciphers.aes K`, `.des K`, `.tdea K1 K2 K3`, `.serpent K` are the objects `AES(K)`, `DES(K)`, `TDEA(K1,K2,K3)`,
+  `Serpent(K)` as the modes see them (Model/ModeCiphers.lean); `Spec.ModeCiphers.fips197 K`, `.fips46 K`, `.sp80067 ko`,
+  `.serpent K` are CIPH_K / CIPH⁻¹_K of FIPS 197, FIPS 46-3, SP 800-67 (key bundle `ko`) and the Serpent submission.
+  Each `…_implements` composes the cipher's C03 theorems (enc/dec are mutually inverse permutations of the byte blocks)
+  with its C02 theorems (enc/dec compute the standard's functions); no hypothesis about the cipher is left.
+  Threefish is not modelled yet (HOOK: `LibCipher` in Proofs/Lemmas/ModeInst.lean gets one more constructor). -/
+
+/-- AES-128/192/256: every key of 16, 24 or 32 bytes -/
+theorem aes_implements (K : List Nat) (hl : K.length = 16 ∨ K.length = 24 ∨ K.length = 32) (hb : Bytes K) :
+    Implements (Ciphers.aes K) (Spec.ModeCiphers.fips197 K) ∧ Ciphers.aes? K = .ok (Ciphers.aes K) :=
+  ⟨Proofs.Lemmas.ModeInst.aes_implements K ⟨hl, hb⟩, aes_ctor K ⟨hl, hb⟩⟩
+
+/-- DES: every 8-byte key (weak keys, any parity) -/
+theorem des_implements (K : List Nat) (hl : K.length = 8) (hb : Bytes K) :
+    Implements (Ciphers.des K) (Spec.ModeCiphers.fips46 K) ∧ Ciphers.des? K = .ok (Ciphers.des K) :=
+  ⟨Proofs.Lemmas.ModeInst.des_implements K ⟨hl, hb⟩, des_ctor K ⟨hl, hb⟩⟩
+
+/-- TDEA: every accepted constructor call `TDEA(K1,K2,K3)`, with the key bundle `ko` (keying option 1, 2 or 3) it denotes -/
+theorem tdea_implements (K1 : List Nat) (K2 K3 : Option (List Nat)) (ko : Spec.Des.Keying)
+    (hcall : Spec.ModeCiphers.keyingOfCall K1 K2 K3 = some ko) (hko : KeyingOk ko) :
+    Implements (Ciphers.tdea K1 K2 K3) (Spec.ModeCiphers.sp80067 ko) ∧ Ciphers.tdea? K1 K2 K3 = .ok (Ciphers.tdea K1 K2 K3) :=
+  ⟨Proofs.Lemmas.ModeInst.tdea_implements K1 K2 K3 ko ⟨hcall, hko⟩, tdea_ctor K1 K2 K3 ko ⟨hcall, hko⟩⟩
+
+/-- the calling forms: one string of 8 / 16 / 24 bytes (keying option 3 / 2 / 1), two 8-byte strings (option 2),
+    three 8-byte strings (option 1) are accepted calls, with these bundles -/
+theorem tdea_calling_forms :
+    (∀ K, K.length = 8 → Bytes K → TdeaKey K none none (.opt3 K)) ∧
+    (∀ K, K.length = 16 → Bytes K → TdeaKey K none none (.opt2 (K.take 8) (K.drop 8))) ∧
+    (∀ K, K.length = 24 → Bytes K → TdeaKey K none none (.opt1 (K.take 8) ((K.drop 8).take 8) (K.drop 16))) ∧
+    (∀ K1 K2, IsBlock 8 K1 → IsBlock 8 K2 → TdeaKey K1 (some K2) none (.opt2 K1 K2)) ∧
+    (∀ K1 K2 K3, IsBlock 8 K1 → IsBlock 8 K2 → IsBlock 8 K3 → TdeaKey K1 (some K2) (some K3) (.opt1 K1 K2 K3)) :=
+  ⟨tdeaKey_string8, tdeaKey_string16, tdeaKey_string24, tdeaKey_two, tdeaKey_three⟩
+
+/-- Serpent: every key of 0..32 bytes (shorter keys padded as the submission prescribes); the object with its key
+    schedule computed once is the same cipher -/
+theorem serpent_implements (K : List Nat) (hl : K.length ≤ 32) (hb : Bytes K) :
+    Implements (Ciphers.serpent K) (Spec.ModeCiphers.serpent K) ∧ Ciphers.serpent? K = .ok (Ciphers.serpent K) :=
+  ⟨Proofs.Lemmas.ModeInst.serpent_implements K ⟨hl, hb⟩, serpent_ctor K ⟨hl, hb⟩⟩
+
+/-! #### the property for the library: `LibCipher c k` — c is `AES(K)` / `DES(K)` / `TDEA(K1,K2,K3)` / `Serpent(K)` with an
+    accepted key, k the standard's cipher with that key.  Every block length is 8 or 16 bytes, so every padding scheme is
+    admissible for every message (`LibPadDom`: nopadding needs a non-empty block multiple) and the default counter for
+    every cipher (`LibCtrDom`: None or any one-block string). -/
+
+/-- ECB: the ciphertext is SP 800-38A ECB over the standard's cipher of the padded message, has the padded length, and an
+    equally configured object (in any padding state) decrypts it to the message -/
+theorem lib_ecb (hc : LibCipher c k) (s : Spec.ModePad.Scheme) (M : List Nat) (hM : Bytes M) (hd : LibPadDom c.len s M)
+    (st : PadState) :
+    ECB.enc c (toModel s) M = .ok (Spec.Mode.ecb k s M) ∧
+    ECB.dec c (toModel s) (Spec.Mode.ecb k s M) st = .ok M ∧
+    (Spec.Mode.ecb k s M).length = (if s = .none then M.length else (M.length / c.len + 1) * c.len) := by
+  have h := lib_implements hc
+  have hd' := lib_padDom hc s M hd
+  have pf := padFacts s c.len h.len_pos M hd' hM
+  exact ⟨ecb_spec h s M hM hd', ecb_dec_of h s M pf st, by rw [ecb_length_of h s M pf, pad_length s c.len h.len_pos M]⟩
+
+/-- CBC: IV ‖ SP 800-38A CBC over the standard's cipher of the padded message; length; decryption -/
+theorem lib_cbc (hc : LibCipher c k) (iv : List Nat) (hiv : IsBlock c.len iv) (s : Spec.ModePad.Scheme) (M : List Nat)
+    (hM : Bytes M) (hd : LibPadDom c.len s M) (st : PadState) :
+    CBC.enc c iv (toModel s) M = .ok (Spec.Mode.cbc k iv s M) ∧
+    CBC.dec c iv (toModel s) (Spec.Mode.cbc k iv s M) st = .ok M ∧
+    (Spec.Mode.cbc k iv s M).take c.len = iv ∧
+    (Spec.Mode.cbc k iv s M).length = (if s = .none then M.length else (M.length / c.len + 1) * c.len) + c.len := by
+  have h := lib_implements hc
+  have hd' := lib_padDom hc s M hd
+  have pf := padFacts s c.len h.len_pos M hd' hM
+  exact ⟨cbc_spec h iv hiv s M hM hd', cbc_dec_of h iv hiv s M pf st, List.take_left' hiv.1,
+    by rw [cbc_length_of h iv hiv s M pf, pad_length s c.len h.len_pos M]⟩
+
+/-- CTR with the default counter (None, or any initial counter block): SP 800-38A CTR over the standard's cipher with
+    T_j = nonce ‖ BE((count0 + j) mod 2^(8·⌈len/2⌉)); every message length; |C| = |M|; decryption -/
+theorem lib_ctr (hc : LibCipher c k) (iv : Option (List Nat)) (hiv : LibCtrDom c.len iv) (M : List Nat) :
+    CTR.enc c iv M = .ok (Spec.Mode.ctr k (iv.getD (List.replicate c.len 0)) M) ∧
+    (Spec.Mode.ctr k (iv.getD (List.replicate c.len 0)) M).length = M.length ∧
+    (CTR.enc c iv M).bind (CTR.dec c iv) = .ok M := by
+  have h := lib_implements hc
+  have hiv' := lib_ctrDom hc iv hiv
+  have e := ctr_spec h iv hiv' M
+  obtain ⟨C, hC, hl⟩ := ctr_length h iv hiv' M
+  rw [e] at hC; cases hC
+  exact ⟨e, hl, ctr_dec_enc h iv hiv' M⟩
+
+/-- ECB with ciphertext stealing, |M| ≥ one block: the stolen-ciphertext construction over the standard's cipher,
+    |C| = |M|, decryption -/
+theorem lib_cts_ecb (hc : LibCipher c k) (M : List Nat) (hM : Bytes M) (hlen : c.len ≤ M.length) :
+    CTS_ECB.enc c .no M = .ok (Spec.Mode.ecbCts k M) ∧
+    (Spec.Mode.ecbCts k M).length = M.length ∧
+    CTS_ECB.dec c .no (Spec.Mode.ecbCts k M) = .ok M := by
+  have h := lib_implements hc
+  have e := cts_ecb_spec h M hM hlen
+  obtain ⟨C, hC, hl, hd⟩ := cts_ecb_all h M hM hlen
+  rw [e] at hC; cases hC
+  exact ⟨e, hl, hd⟩
+
+/-- CBC with ciphertext stealing, |M| ≥ one block: IV ‖ CBC-CS2 (SP 800-38A addendum) over the standard's cipher,
+    |C| = |M| + one block, decryption -/
+theorem lib_cts_cbc (hc : LibCipher c k) (iv : List Nat) (hiv : IsBlock c.len iv) (M : List Nat) (hM : Bytes M)
+    (hlen : c.len ≤ M.length) :
+    CTS_CBC.enc c iv .no M = .ok (Spec.Mode.cbcCts k iv M) ∧
+    (Spec.Mode.cbcCts k iv M).length = M.length + c.len ∧
+    (Spec.Mode.cbcCts k iv M).take c.len = iv ∧
+    CTS_CBC.dec c iv .no (Spec.Mode.cbcCts k iv M) = .ok M := by
+  have h := lib_implements hc
+  have e := cts_cbc_spec h iv hiv M hM hlen
+  obtain ⟨C, hC, hl, ht, hd⟩ := cts_cbc_all h iv hiv M hM hlen
+  rw [e] at hC; cases hC
+  exact ⟨e, hl, ht, hd⟩
+
+/-- decryption of arbitrary strings by the stealing modes over a library cipher: the Spec inverses over the standard's cipher -/
+theorem lib_cts_dec (hc : LibCipher c k) (iv : List Nat) (hiv : iv.length = c.len) (C : List Nat) (hC : Bytes C) :
+    (c.len ≤ C.length → CTS_ECB.dec c .no C = .ok (Spec.Mode.ecbCtsInv k C)) ∧
+    (2 * c.len ≤ C.length → CTS_CBC.dec c iv .no C = .ok (Spec.Mode.cbcCtsInv k C)) :=
+  ⟨fun hl => cts_ecb_dec_spec (lib_implements hc) C hC hl, fun hl => cts_cbc_dec_spec (lib_implements hc) iv hiv C hC hl⟩
+
+/-! #### the library theorems read for one cipher at a time (instances of `lib_*`, spelled out for the reader) -/
+
+/-- `CBC(AES(K),iv)` with the default PKCS#7 padding, any key of 16/24/32 bytes, any 16-byte IV, ANY message:
+    the output is IV ‖ SP 800-38A CBC over FIPS 197 of the PKCS#7-padded message, and `dec` returns the message -/
+example (K iv M : List Nat) (hl : K.length = 16 ∨ K.length = 24 ∨ K.length = 32) (hK : Bytes K) (hiv : IsBlock 16 iv)
+    (hM : Bytes M) :
+    CBC.enc (Ciphers.aes K) iv .pkcs7 M = .ok (Spec.Mode.cbc (Spec.ModeCiphers.fips197 K) iv .pkcs7 M) ∧
+    (CBC.enc (Ciphers.aes K) iv .pkcs7 M).bind (fun C => CBC.dec (Ciphers.aes K) iv .pkcs7 C) = .ok M := by
+  obtain ⟨h1, h2, _, _⟩ := lib_cbc (.aes K ⟨hl, hK⟩) iv hiv .pkcs7 M hM (fun h => by cases h) {}
+  have h1' : CBC.enc (Ciphers.aes K) iv .pkcs7 M = _ := h1
+  exact ⟨h1', by rw [h1']; exact h2⟩
+
+/-- `CTR(TDEA(K))` with one 24-byte key string and the default counter, ANY message: SP 800-38A CTR over TDEA
+    keying option 1 with the three 8-byte parts of K, nonce and count zero; same length; `dec` inverts -/
+example (K M : List Nat) (hl : K.length = 24) (hK : Bytes K) :
+    CTR.enc (Ciphers.tdea K none none) none M
+      = .ok (Spec.Mode.ctr (Spec.ModeCiphers.sp80067 (.opt1 (K.take 8) ((K.drop 8).take 8) (K.drop 16))) (List.replicate 8 0) M) ∧
+    (CTR.enc (Ciphers.tdea K none none) none M).bind (CTR.dec (Ciphers.tdea K none none) none) = .ok M := by
+  obtain ⟨h1, _, h3⟩ := lib_ctr (.tdea K none none _ (tdeaKey_string24 K hl hK)) none (fun _ h => by cases h) M
+  exact ⟨h1, h3⟩
+
+/-- `CTS_ECB(Serpent(K))`, any key of at most 32 bytes, any message of at least 16 bytes: as long as the message -/
+example (K M : List Nat) (hl : K.length ≤ 32) (hK : Bytes K) (hM : Bytes M) (hlen : 16 ≤ M.length) :
+    ∃ C, CTS_ECB.enc (Ciphers.serpent K) .no M = .ok C ∧ C.length = M.length ∧
+      C = Spec.Mode.ecbCts (Spec.ModeCiphers.serpent K) M ∧ CTS_ECB.dec (Ciphers.serpent K) .no C = .ok M := by
+  obtain ⟨h1, h2, h3⟩ := lib_cts_ecb (.serpent K ⟨hl, hK⟩) M hM hlen
+  exact ⟨_, h1, h2, rfl, h3⟩
+
+/-! ### the two padding specifications agree (Spec.ModePad of this property, Spec.Padding of the padding property C09) -/
+
+/-- for every byte string the padded string Spec.ModePad defines (PKCS#7, X9.23, bit padding, none; block of l bytes) is
+    the bit-level padded string of Spec.Padding (block of 8·l bits), read back as bytes -/
+theorem modepad_eq_padding (s : Spec.ModePad.Scheme) (l : Nat) (hl : 0 < l) (M : List Nat) (hM : Bytes M)
+    (h256 : s = .pkcs7 ∨ s = .x923 → l < 256) :
+    Spec.ModePad.pad s l M =
+      Spec.Padding.padBytes (Proofs.Lemmas.ModePadTie.toPadding s) (8 * l) M (8 * M.length) :=
+  Proofs.Lemmas.ModePadTie.pad_eq s l hl M hM h256
+
+/-- the PKCS#7 / X9.23 unpadding maps of the two specifications are the same functions (all inputs) -/
+theorem modepad_unpad_eq_padding (l : Nat) (X : List Nat) :
+    Spec.ModePad.unpkcs7 l X = Spec.Padding.pkcs7Unpad l X ∧ Spec.ModePad.unx923 l X = Spec.Padding.x923Unpad l X :=
+  ⟨Proofs.Lemmas.ModePadTie.unpkcs7_eq l X, Proofs.Lemmas.ModePadTie.unx923_eq l X⟩
+
 /-! ### non-vacuity: the hypotheses are inhabited by a non-trivial instance -/
+
+/-- library instances: AES-192 in CBC with X9.23, TDEA called with one 24-byte string in CTR, Serpent with a 5-byte key in
+    ECB-CTS, DES -/
+example : LibCipher (Ciphers.aes (List.range 24)) (Spec.ModeCiphers.fips197 (List.range 24)) :=
+  .aes _ ⟨by decide, by unfold Bytes; decide⟩
+example : LibCipher (Ciphers.tdea (List.range 24) none none)
+    (Spec.ModeCiphers.sp80067 (.opt1 (List.range 8) [8, 9, 10, 11, 12, 13, 14, 15] [16, 17, 18, 19, 20, 21, 22, 23])) :=
+  .tdea _ _ _ _ (tdeaKey_string24 (List.range 24) (by decide) (by unfold Bytes; decide))
+example : LibCipher (Ciphers.serpent [1, 2, 3, 4, 255]) (Spec.ModeCiphers.serpent [1, 2, 3, 4, 255]) :=
+  .serpent _ ⟨by decide, by unfold Bytes; decide⟩
+example : LibCipher (Ciphers.des [1, 1, 1, 1, 1, 1, 1, 1]) (Spec.ModeCiphers.fips46 [1, 1, 1, 1, 1, 1, 1, 1]) :=
+  .des _ ⟨by decide, by unfold Bytes; decide⟩
+example : LibPadDom 16 .x923 [1, 2, 3] ∧ LibPadDom 16 .none (List.replicate 32 7) ∧ LibCtrDom 16 none ∧
+    LibCtrDom 8 (some [0, 0, 0, 1, 255, 255, 255, 255]) := by
+  refine ⟨?_, ?_, ?_, ?_⟩
+  · intro h; cases h
+  · intro _; exact ⟨by decide, by decide⟩
+  · intro v h; cases h
+  · intro v h; cases h; exact ⟨rfl, by unfold Bytes; decide⟩
 
 /-- a concrete permutation cipher on 8-byte blocks satisfying `Implements` (for every block length n ≥ 1 and n-byte key:
     `Proofs.Lemmas.ModeL.toy_rot_implements`) -/
